@@ -666,6 +666,7 @@ def check_C01(tier):
     scenario_random(run, ALLALG, ['std', 'safe'], ['plain', 'null', 'dictarch', 'file', 'dir', 'sql', 'direct-dict',
                     'direct-file', 'direct-dir'], 2500 if t else 350, 40 if t else 25,
                     variants=('plain', 'plain', 'ignore_y', 'tol0'))
+    scenario_probes(run, {'compaction', 'clear', 'peek'}, backends=('plain', 'dictarch', 'file'))
     return run.finish(assumptions=ASSUME)
 
 
@@ -678,6 +679,7 @@ def check_C02(tier):
     scenario_second_instance(run, 1500 if t else 250, 30 if t else 20)
     scenario_random(run, ALLALG, ['std', 'safe'], ['plain', 'dictarch', 'file', 'dir', 'sql', 'direct-dict', 'direct-dir'],
                     1500 if t else 200, 40 if t else 25, variants=('plain', 'plain', 'ignore_y', 'ignore_1', 'tol0'))
+    scenario_probes(run, {'compaction', 'clear'}, backends=('dictarch', 'file'))
     return run.finish(assumptions=ASSUME)
 
 
